@@ -370,6 +370,7 @@ func cmdReplaySession(args []string) error {
 }
 
 func init() {
+	register("leader-cases", "leader-only client with two endpoints through leadership histories (C16)", cmdLeaderCases)
 	register("reconn-cases", "connection loss scenarios (proxy cuts, black hole, cuts while reconnecting) on a real client with reconnect", cmdReconnCases)
 }
 
@@ -468,6 +469,48 @@ func cmdEventsDirect(args []string) error {
 		if err := recsess.EventsDirect(b, *seed*1000+int64(i), *steps, 1+i%3, rec); err != nil {
 			return err
 		}
+	}
+	return nil
+}
+
+func cmdLeaderCases(args []string) error {
+	fs := flag.NewFlagSet("leader-cases", flag.ExitOnError)
+	casesFile := fs.String("cases", "cases.ndjson", "one case per line")
+	out := fs.String("o", "trace.ndjson", "output trace")
+	_ = fs.Parse(args)
+	b, err := abs.Build(recsess.ReconnSchema(), false)
+	if err != nil {
+		return err
+	}
+	cf, err := os.Open(*casesFile)
+	if err != nil {
+		return err
+	}
+	defer cf.Close()
+	f, err := os.Create(*out)
+	if err != nil {
+		return err
+	}
+	defer f.Close()
+	w := bufio.NewWriter(f)
+	defer w.Flush()
+	rec := rectxn.NewRecorder(w)
+	dir, err := os.MkdirTemp("", "vh-sock")
+	if err != nil {
+		return err
+	}
+	defer os.RemoveAll(dir)
+	dec := json.NewDecoder(cf)
+	id := 0
+	for dec.More() {
+		var c recsess.LeaderCase
+		if err := dec.Decode(&c); err != nil {
+			return err
+		}
+		if err := recsess.RunLeader(b, dir, id, c, rec); err != nil {
+			return err
+		}
+		id++
 	}
 	return nil
 }
